@@ -45,9 +45,10 @@ impl<'a, I: DatePrimitive> DateDeserializer<'a, I> {
             .map_err(|_| Error::custom(format!("Cannot convert {ts} to i64")))?;
 
         const UNIX_EPOCH: NaiveDate = NaiveDateTime::UNIX_EPOCH.date();
-        #[allow(deprecated)]
-        let delta = Duration::days(ts);
-        let date = UNIX_EPOCH + delta;
+        let Some(date) = Duration::try_days(ts).and_then(|delta| UNIX_EPOCH.checked_add_signed(delta))
+        else {
+            fail!("Cannot convert {ts} days since the epoch into a date");
+        };
 
         // special handling of negative dates:
         //
